@@ -161,7 +161,8 @@ def gen(rnd):
     if ping_rate < 30 * 1024 and rnd.random() < 0.6:
         k = rnd.randrange(1, len(steps))
         steps[k:k] = [("timeout", 5120)] * rnd.choice([1, 2])
-    sc.update(dict(cfg=simnet.default_cfg(close_timeout=None, ping_rate=ping_rate), steps=steps, app=app, keys=scen.keys(rnd, 24), key16=scen.KEY16))
+    # close_timeout 0 and None both mean "no timeout"; a long one must not fire within these histories either
+    sc.update(dict(cfg=simnet.default_cfg(close_timeout=rnd.choice([None, None, 0, 0, 90 * 1024]), ping_rate=ping_rate), steps=steps, app=app, keys=scen.keys(rnd, 24), key16=scen.KEY16))
     sc["_eof_after"] = True
     sc["_mode"] = mode
     return sc
@@ -186,7 +187,7 @@ def run(rep, info, model, tier, seed):
                     if j is not None:
                         app.setdefault(j, [])
                         app[j] = app[j] + [("text", b"s", True)]
-                    sc = dict(cfg=simnet.default_cfg(close_timeout=None), steps=steps, app=app, keys=[b"\x01\x01\x01\x01"] * 8, key16=scen.KEY16)
+                    sc = dict(cfg=simnet.default_cfg(close_timeout=(None, 0, 0, 90 * 1024)[(k + (j or 0)) % 4]), steps=steps, app=app, keys=[b"\x01\x01\x01\x01"] * 8, key16=scen.KEY16)
                     sc["_eof_after"] = True
                     sc["_mode"] = "small"
                     if server_close and k <= 6:
